@@ -152,7 +152,7 @@ def tree_to_stack(tree, share=True):
     rows, memo = [], {}
 
     def go(t):
-        key = t if (share and t[0] != "c") else None
+        key = t if (share and t[0] != "c") or t[0] == "cs" else None
         if key is not None and key in memo:
             return memo[key]
         if t[0] == "x":
@@ -160,6 +160,8 @@ def tree_to_stack(tree, share=True):
         elif t[0] == "i":
             row = [INTEGER, t[1], t[1]]
         elif t[0] == "c":
+            row = [CONSTANT, -1, -1]
+        elif t[0] == "cs":                      # ("cs", k): ONE constant row per k, however often it occurs (always shared)
             row = [CONSTANT, -1, -1]
         elif len(t) == 2:
             a = go(t[1])
@@ -326,3 +328,47 @@ def twin_tree(rng, D):
     if k == 5:
         return (ADD, (ADD, t1, var()), t2)
     return (SUB, (MUL, ("i", rng.randrange(2, 4)), t1), t2)
+
+
+def shared_const_tree(rng, D):
+    """sums in which the SAME few constants occur several times: together inside constant-only sub-expressions (plain, under a
+    function, as an exponent), and on their own with a sign / an integer factor / an integer power next to variables.  Constant
+    folding may replace a constant-only sub-expression only if that loses no freedom; every occurrence counts."""
+    k = rng.choice([2, 2, 3])
+    cs = [("cs", j) for j in range(k)]
+
+    def var():
+        return ("x", rng.randrange(D))
+
+    def const_only():
+        a, b = rng.sample(cs, 2)
+        t = rng.choice([(ADD, a, b), (MUL, a, b), (SUB, a, b), (DIV, a, b), (ADD, (MUL, ("i", 2), a), b)])
+        w = rng.random()
+        if w < 0.45:
+            return rng.choice([(SIN, t), (COS, t), (EXP, t)])
+        if w < 0.6:
+            return (POW, var(), t)
+        return t
+
+    def solo():
+        c = rng.choice(cs)
+        w = rng.randrange(6)
+        if w == 0:
+            return (MUL, c, var())
+        if w == 1:
+            return (MUL, (MUL, ("i", rng.choice([2, 3, -1])), c), var())
+        if w == 2:
+            return (SUB, ("i", 0), (MUL, c, var()))
+        if w == 3:
+            return (MUL, (MUL, c, c), var())
+        if w == 4:
+            return (MUL, (POW, c, ("i", rng.choice([2, 3]))), var())
+        return (ADD, c, var())
+    terms = [const_only()] + [solo() for _ in range(rng.randrange(1, 4))]
+    if rng.random() < 0.4:
+        terms.append((MUL, const_only(), var()))
+    rng.shuffle(terms)
+    t = terms[0]
+    for u in terms[1:]:
+        t = (rng.choice([ADD, ADD, SUB]), t, u)
+    return t
